@@ -675,6 +675,25 @@ def call_real_keep(P, x_elem, mode, space):
     return st, flat(out), (None if mode == 'alias' else flat(xin)), True
 
 
+def only_inf_to_nan(res):
+    """True iff the ONLY difference between the in-place results and P(x) is the one of finding
+    C10-F3 / C01-F3: entries where P(x) is +-inf arrive as NaN, everything else agrees."""
+    if res['oop'][0] != 'ok' or np.all(np.isfinite(res['oop'][1])):
+        return False
+    ref = np.asarray(res['oop'][1], dtype=float)
+    inf = np.isinf(ref)
+    for mode in ('junk', 'alias'):
+        if res[mode][0] != 'ok' or not res[mode][3]:
+            return False
+        got = np.asarray(res[mode][1], dtype=float)
+        if got.shape != ref.shape or not np.all(np.isnan(got[inf])) or \
+                not same(got[~inf], ref[~inf], True):
+            return False
+        if mode == 'junk' and not np.array_equal(res[mode][2], res['oop'][2], equal_nan=True):
+            return False
+    return True
+
+
 def oracle(ctx, key, desc, P, x_elem, space, tol, second=None, frames=()):
     """The property's oracle on the real code. Returns (results dict, problems list)."""
     res = {}
@@ -1012,8 +1031,7 @@ def run_prog_case(ctx, c, lines, pending):
     desc = describe(c)
     key = '{} {} flags={} space={} xclass={}'.format('aux' if plan.aux else 'prox', plan.mid,
                                                      plan.flags or '-', c['kind'], c['xclass'])
-    if problems and plan.aux and res['oop'][0] == 'ok' and \
-            not np.all(np.isfinite(res['oop'][1])):
+    if problems and plan.aux and only_inf_to_nan(res):
         key += ' nonfinite-result'
     if problems:
         ctx.violation(key, '; '.join(problems)[:600], desc)
@@ -1640,8 +1658,7 @@ def search(ctx, broken):
                 if problems:
                     skey = '{} {} flags={} space={} xclass={}'.format(
                         'aux' if plan.aux else 'prox', plan.mid, plan.flags or '-', kind, xclass)
-                    if plan.aux and res['oop'][0] == 'ok' and \
-                            not np.all(np.isfinite(res['oop'][1])):
+                    if plan.aux and only_inf_to_nan(res):
                         skey += ' nonfinite-result'
                     ctx.violation(skey, '; '.join(problems)[:600], describe(c))
     try:
